@@ -129,6 +129,7 @@ Step ==
        [] o.op = "RF" -> DoRA(s, hist, "RF")
        [] o.op = "RA" -> DoRA(s, hist, "RA")
        [] o.op = "RL" -> DoRA(s, hist, "RA")
+       [] o.op = "SRD" -> s' = s /\ hist' = hist
        [] o.op = "RM" -> DoRM
   /\ pc' = pc + 1
   /\ UNCHANGED << cfg, fr, prog, cut, stream >>
